@@ -294,6 +294,7 @@ func main() {
 		return
 	}
 	r := mc.Start("C03", "exploration")
+	r.DisableStallWatchdog() // workers are subprocesses with their own no-progress limit
 	r.RegisterReplay("call", func(pj json.RawMessage) *mc.Viol {
 		var s single
 		json.Unmarshal(pj, &s)
